@@ -27,6 +27,17 @@ CHECKS = {
               "always yields an accepted chain (per-graph checking stands in), and link edits (object-level chain) are "
               "covered by the oracle only. Known findings D2, D3, D13 delimit the guarded domain and are replayed."),
         design="§7 C01"),
+    "C14": dict(
+        technique="Lean 4 theorems by kernel evaluation over the parameter table regenerated from /repo + K-valid correspondence (exhaustive class × parameter × invalid kind)",
+        text=("Proved in Lean (decide +kernel over Generated.params, the table of every __init__ parameter of every public "
+              "class rewritten from /repo on every run): every quantity parameter has a default; wrong dimension, "
+              "negative (unless declared meaningful — only data_stored), wrong type and wrong class in a list are refused "
+              "by the parse phase, i.e. before any mutation; valid values are accepted. The model of the check is run "
+              "against the real code for every table row × invalid kind (K-valid) together with a deep before/after "
+              "snapshot. False of the code and recorded as known findings: allowed-value checks run after apply (D8), "
+              "Union-annotated parameters unchecked (D9), UsagePattern constructor accepts wrong classes (D16), a "
+              "grouped update failing inside apply_changes stays half applied (D17)."),
+        design="§7 C14"),
     "C18": dict(
         technique="Lean 4 fixed-point theorems + table obligation order_respects_reads (decide over tables regenerated from /repo)",
         text=("Proved in Lean: in a consistent state any sequence of recomputation requests changes nothing; a full pass in "
